@@ -352,7 +352,9 @@ func TestNumberFlags(t *testing.T) {
 	}
 	evid.Check(t, "NumberFlags", 10000, func(rt *rapid.T) {
 		var lit string
-		switch rapid.IntRange(0, 3).Draw(rt, "lk") {
+		switch rapid.IntRange(0, 4).Draw(rt, "lk") {
+		case 4:
+			lit = jgen.LongIntLit(rt)
 		case 0:
 			lit = rapid.SampledFrom(numLits).Draw(rt, "lit")
 		case 1:
